@@ -44,20 +44,21 @@ type plDgram struct {
 }
 
 type plJob struct {
-	ID        int        `json:"id"`
-	Proto     string     `json:"proto"`
-	Workers   int        `json:"workers"`
-	Seed      int64      `json:"seed"`
-	UDPSize   int        `json:"udpsize"`
-	Templates []plDgram  `json:"templates"` // announced and fully processed first
-	Data      []plDgram  `json:"data"`      // then these, interleaved by the scheduler
-	Lazy      int        `json:"lazy"`      // the consumer takes a message with probability 1/Lazy per move
-	Retire    int        `json:"retire"`    // dynamic workers: how many workers are told to quit during the data phase
-	Filter    []uint32   `json:"filter"`    // sflow-type-filter
-	Scheds    [][]string `json:"scheds"`    // TLC-generated schedules (spec/PipelineSched.tla) to replay one after the other; Data = the model's datagrams
-	Poison    []int      `json:"poison"`    // what a recycled buffer holds behind the datagram just read: repeated well-formed sets / records
-	Free      bool       `json:"free"`      // no gates: the workers run in parallel as in the collector (used under the race detector)
-	Mirror    string     `json:"mirror"`    // "": mirroring off; "on": enabled, the copies are taken and given back like the mirror workers do; "full": enabled and the mirror queue is full
+	ID         int        `json:"id"`
+	Proto      string     `json:"proto"`
+	Workers    int        `json:"workers"`
+	Seed       int64      `json:"seed"`
+	UDPSize    int        `json:"udpsize"`
+	Templates  []plDgram  `json:"templates"`   // announced and fully processed first
+	Data       []plDgram  `json:"data"`        // then these, interleaved by the scheduler
+	Lazy       int        `json:"lazy"`        // the consumer takes a message with probability 1/Lazy per move
+	Retire     int        `json:"retire"`      // dynamic workers: how many workers are told to quit during the data phase
+	Filter     []uint32   `json:"filter"`      // sflow-type-filter
+	Scheds     [][]string `json:"scheds"`      // TLC-generated schedules (spec/PipelineSched.tla) to replay one after the other; Data = the model's datagrams
+	Poison     []int      `json:"poison"`      // what a recycled buffer holds behind the datagram just read: repeated well-formed sets / records
+	Free       bool       `json:"free"`        // no gates: the workers run in parallel as in the collector (used under the race detector)
+	MirrorLate bool       `json:"mirror_late"` // mirroring is enabled only after the templates have been processed
+	Mirror     string     `json:"mirror"`      // "": mirroring off; "on": enabled, the copies are taken and given back like the mirror workers do; "full": enabled and the mirror queue is full
 }
 
 type plEvent struct {
@@ -411,7 +412,7 @@ func plRun(job plJob) (res plResult) {
 		}
 		known[string(b)] = true
 	}
-	if job.Mirror != "" && ad.mirror != nil {
+	if job.Mirror != "" && ad.mirror != nil && !job.MirrorLate {
 		defer ad.mirror(job.Mirror)()
 	}
 	workers := map[int]*plWorker{} // by goroutine id
@@ -615,6 +616,11 @@ func plRun(job plJob) (res plResult) {
 		}
 		for consume() {
 		}
+	}
+	if job.Mirror != "" && ad.mirror != nil && job.MirrorLate {
+		// mirroring is switched on now (the dispatcher goroutine does it some time after the workers have started; templates
+		// loaded from the cache file were learnt without it): every worker is parked at a hook, none is reading the flag
+		defer ad.mirror(job.Mirror)()
 	}
 	if len(job.Scheds) > 0 {
 		// binding A: replay TLC's schedules move by move and report the abstract state after each move; every
